@@ -17,7 +17,7 @@ META = dict(
                 'by exact rational-function equality of their arguments (plus monotonicity facts), so that the code and the '
                 'independently written eq. 120/123 of arXiv:1209.0394 reduce to a polynomial identity; real Fiber objects for the '
                 'concrete-coefficient variant including a modify-and-recompute history',
-    bounds=['k<=3 channels (4 thorough)', 'analytic GN method only', 'frequency-flat alpha/beta2/gamma for the closed form '
+    bounds=['k<=3 channels (6 thorough)', 'analytic GN method only', 'frequency-flat alpha/beta2/gamma for the closed form '
             '(gnpy\'s per-frequency extension is a modelling choice not fixed by the paper)'],
     assumptions=['floats as reals', 'asinh/exp abstraction: sound for unsat; the facts used are congruence, asinh increasing, exp>0',
                  'GGN methods (numerical integrals) are outside the technique'],
@@ -258,7 +258,7 @@ def h_real_fiber_history(ctx, variant, k):
 
 
 def jobs(tier):
-    ks = [2, 3] if tier == 'quick' else [2, 3, 4, 5]
+    ks = [2, 3] if tier == 'quick' else [2, 3, 4, 5, 6]
     js = []
     for k in ks:
         for uni in (True, False):
